@@ -254,6 +254,103 @@ async fn fork_history(hrng: &mut Rng, gp: u64, case: usize, summary: &mut Summar
     (b, desc)
 }
 
+
+/// A reorganisation that fails: node A has block k; node B builds a valid competing block k and a
+/// child k+1 that re-spends an output already spent on the shared chain (Block::create does not
+/// validate). Delivered to A: the sibling goes off-chain, its child triggers the reorganisation,
+/// fails to validate, and A must end up exactly where it was (supply, utxo set).
+async fn failed_reorg_history(hrng: &mut Rng, gp: u64, case: usize, summary: &mut Summary) -> (Sim, String) {
+    let nkeys = 4u8;
+    let issuance = gen_issuance(hrng, nkeys, false);
+    let mut a = Sim::new(gp, 8, nkeys, &issuance, 1_000_000).await;
+    let mut b = Sim::new(gp, 8, nkeys, &issuance, 1_000_000).await;
+    let shared = (gp + 2 + hrng.below(3)) as usize;
+    let desc = format!(
+        "{{\"case\":{},\"kind\":\"failed-reorg\",\"genesis_period\":{},\"shared_blocks\":{},\"issuance\":{:?}}}",
+        case, gp, shared, jpairs(&issuance)
+    );
+    let mut respend: Option<(saito_core::core::consensus::slip::Slip, usize)> = None;
+    let mut ok = true;
+    for i in 0..shared {
+        let ts = a.tip().timestamp + 2 * HEARTBEAT + hrng.below(5000);
+        let mut spendable = a.spendable();
+        spendable.sort_by_key(|s| s.block_id);
+        let mut txs = vec![];
+        if let Some(s) = spendable.last() {
+            txs.push(gen_payment(&a, hrng, s, 1, false, ts));
+            if i + 1 == shared {
+                respend = Some((s.clone(), a.key_index(&s.public_key).unwrap()));
+            }
+        }
+        let with_gt = want_gt(&a, hrng, txs.is_empty());
+        let gt = if with_gt {
+            let parent = a.tip().clone();
+            Some(gt_tx_for(&a.node, &parent, a.keys[1].0, i as u64 * 19 + case as u64).await)
+        } else {
+            None
+        };
+        let (co, sr) = a.honest_step(ts, gt.clone(), &txs).await;
+        if co != CreateOutcome::Ok || sr.add != Some(AddClass::OnChain) {
+            ok = false;
+            break;
+        }
+        let blk = a.tip().clone();
+        let sr2 = b.step(ts, gt, &txs, CreateOutcome::NotCalled, None, Some(blk)).await;
+        if sr2.add != Some(AddClass::OnChain) {
+            ok = false;
+            break;
+        }
+    }
+    if let (true, Some((x, owner))) = (ok, respend) {
+        let ts = a.tip().timestamp + 2 * HEARTBEAT + 700;
+        let parent = a.tip().clone();
+        let gta = gt_tx_for(&a.node, &parent, a.keys[1].0, 911).await;
+        let (_c, sra) = a.honest_step(ts, Some(gta), &[]).await;
+        ok = sra.add == Some(AddClass::OnChain);
+        let gtb = gt_tx_for(&b.node, &parent, b.keys[2].0, 912).await;
+        let (_c, srb) = b.honest_step(ts + 13, Some(gtb), &[]).await;
+        ok = ok && srb.add == Some(AddClass::OnChain);
+        if ok {
+            let before_supply = big_supply(&a.node).unwrap();
+            let mut ia = Interner::default();
+            let before_utxo = window_utxo(&a.node, &mut ia);
+            // the child re-spends x (spent in the last shared block)
+            let ts2 = b.tip().timestamp + 2 * HEARTBEAT + 900;
+            let bad = make_tx(&[x.clone()], &[(x.public_key, x.amount)], &b.keys[owner].1, ts2);
+            let p = b.tip().clone();
+            let gt2 = gt_tx_for(&b.node, &p, b.keys[2].0, 913).await;
+            let bk = b.tip().clone();
+            let created = create_block(&b.node, p.hash, ts2, &[bad.clone()], Some(gt2.clone())).await;
+            if let Ok(Ok(bk1)) = created {
+                let srb2 = b.step(ts2, Some(gt2), &[bad], CreateOutcome::Ok, Some(bk1.clone()), Some(bk1.clone())).await;
+                if srb2.add != Some(AddClass::Invalid) {
+                    summary.oracle_failure(case, &format!("a block re-spending the spent output {}:{}:{} is not rejected: {:?}", x.block_id, x.tx_ordinal, x.slip_index, srb2.add), &desc);
+                }
+                let r1 = verif_harness::chainsim::futures_catch(std::panic::AssertUnwindSafe(a.node.add_block(bk))).await;
+                let r2 = verif_harness::chainsim::futures_catch(std::panic::AssertUnwindSafe(a.node.add_block(bk1))).await;
+                summary.count("failed_reorg_delivery", &format!("{:?}/{:?}", r1.clone().map(|c| c.code()), r2.clone().map(|c| c.code())));
+                match (r1, r2) {
+                    (Ok(AddClass::OffChain), Ok(AddClass::Invalid)) => {
+                        let sa = std::panic::catch_unwind(std::panic::AssertUnwindSafe(|| big_supply(&a.node))).ok().flatten();
+                        if sa != Some(before_supply) {
+                            summary.oracle_failure(case, &format!("after the failed reorganisation the supply is {:?}, before it was {} (issued {})", sa, before_supply, a.issued), &desc);
+                        }
+                        let mut ia2 = Interner::default();
+                        if window_utxo(&a.node, &mut ia2) != before_utxo {
+                            summary.oracle_failure(case, "after the failed reorganisation the in-window utxo set differs from the one before it", &desc);
+                        }
+                    }
+                    (r1, r2) => {
+                        summary.oracle_failure(case, &format!("failed-reorg delivery: sibling {:?}, its invalid child {:?} (expected off-chain, then invalid)", r1, r2), &desc);
+                    }
+                }
+            }
+        }
+    }
+    summary.count("failed_reorg", &format!("gp{}", gp));
+    (b, desc)
+}
+
 /// deterministic chain with large fees (fee per byte > 0) used as prefix of the scripted cases
 async fn scripted_prefix_raw(gp: u64, pab: u64, issuance: &[(usize, u64)], blocks: usize, seed: u64, case: usize, summary: &mut Summary, desc: &str) -> Sim {
     let mut rng = Rng::new(seed);
@@ -496,6 +593,35 @@ async fn scripted(name: &str, case: usize, summary: &mut Summary) -> (Sim, Strin
                 summary.count("scripted", &format!("header-tampered:{}", name_f));
             }
         }
+        // an attacker-assembled block: an ordinary signed transaction spends an output of the block
+        // leaving the window, which the same block's rebroadcast transaction consumes as well;
+        // the header is made consistent with the real generate_consensus_values. Must be rejected.
+        "spend-and-rebroadcast" => {
+            sim = scripted_prefix_raw(3, 8, ISS, 3, 7, case, summary, &desc).await;
+            if sim.dead {
+                return (sim, desc);
+            }
+            let ts = sim.tip().timestamp + 2 * HEARTBEAT + 1000;
+            let parent = sim.tip().clone();
+            let gt = gt_tx_for(&sim.node, &parent, sim.keys[1].0, 21).await;
+            let created = create_block(&sim.node, parent.hash, ts, &[], Some(gt.clone())).await.unwrap().unwrap();
+            let g = sim.chain[0].clone();
+            let s = g.transactions.iter().flat_map(|t| t.to.iter()).find(|s| s.amount == 90_000).unwrap().clone();
+            let owner = sim.key_index(&s.public_key).unwrap();
+            let mut spend = make_tx(&[s.clone()], &[(sim.keys[3].0, s.amount)], &sim.keys[owner].1, ts);
+            spend.generate(&sim.node.pk, 0, 0);
+            let mut edited = created.clone();
+            let rebroadcast_too = edited.transactions.iter().any(|t| t.transaction_type == TransactionType::ATR && t.from.iter().any(|f| f.get_utxoset_key() == s.get_utxoset_key()));
+            summary.count("scripted", &format!("{}:output-is-rebroadcast-{}", name, rebroadcast_too));
+            edited.transactions.insert(1, spend.clone());
+            refill_header(&sim.node, &mut edited).await;
+            reseal(&mut edited, &sim.keys[0].1);
+            let sr = sim.step(ts, Some(gt), &[], CreateOutcome::Ok, Some(created), Some(edited)).await;
+            if sr.add != Some(AddClass::Invalid) {
+                summary.oracle_failure(case, &format!("block spending output 1:{}:0 (90_000) AND rebroadcasting it is not rejected: {:?} {}", s.tx_ordinal, sr.add, sr.panic_msg.clone().unwrap_or_default()), &desc);
+            }
+            c02_oracle(&mut sim, &sr, case, summary, &desc, None);
+        }
         _ => unreachable!(),
     }
     summary.count("scripted", name);
@@ -527,27 +653,6 @@ async fn scripted_more(sim: &mut Sim, k: u64) -> Option<StepResult> {
     Some(sr)
 }
 
-/// a "new NFT" transaction: [Bound id, Normal payload, Bound tracker(0)] + change
-fn nft_create(sim: &Sim, input: &saito_core::core::consensus::slip::Slip, payload: u64, change: u64, ts: u64) -> Transaction {
-    let owner = sim.key_index(&input.public_key).unwrap();
-    let mut uuid = [0u8; 33];
-    uuid[0..8].copy_from_slice(&input.block_id.to_be_bytes());
-    uuid[8..16].copy_from_slice(&input.tx_ordinal.to_be_bytes());
-    uuid[16] = input.slip_index;
-    raw_tx(
-        TransactionType::Bound,
-        vec![input.clone()],
-        vec![
-            slip_out(input.public_key, 1, SlipType::Bound),
-            slip_out(input.public_key, payload, SlipType::Normal),
-            slip_out(uuid, 0, SlipType::Bound),
-            slip_out(input.public_key, change, SlipType::Normal),
-        ],
-        &sim.keys[owner].1,
-        ts,
-    )
-}
-
 #[allow(unused)]
 fn block_types(b: &Block) -> Vec<u8> {
     b.transactions.iter().map(|t| t.transaction_type as u8).collect()
@@ -577,6 +682,7 @@ async fn main() {
         "nft-rebroadcast",
         "collected-output-spent",
         "header-tampered",
+        "spend-and-rebroadcast",
     ] {
         let case = cases.len();
         let r = verif_harness::chainsim::futures_catch(std::panic::AssertUnwindSafe(scripted(name, case, &mut summary))).await;
@@ -620,6 +726,16 @@ async fn main() {
         let (sim, desc) = fork_history(&mut hrng, gp, case, &mut summary).await;
         coq_cases.push(sim.history_literal());
         cases.push(Case { desc, nontrivial_key: format!("fork:gp{}", gp) });
+    }
+
+    let n_failed = if thorough { 12 } else { 2 };
+    for h in 0..n_failed {
+        let case = cases.len();
+        let mut hrng = rng.fork();
+        let gp = [3u64, 5, 4, 8][h % 4];
+        let (sim, desc) = failed_reorg_history(&mut hrng, gp, case, &mut summary).await;
+        coq_cases.push(sim.history_literal());
+        cases.push(Case { desc, nontrivial_key: format!("fork:failed:gp{}", gp) });
     }
 
     // non-trivial: scripted adversarial cases and random histories whose window wrapped at least once
